@@ -115,7 +115,56 @@ func NewModule(batchSize int) *liskbft.Module {
 // committed; otherwise one diffdb per block, committed to the DB after each block as the
 // engine does (so Range/pruning hit the real store).
 func NewNode(batchSize int, longLived bool) *Node {
-	return &Node{Mod: NewModule(batchSize), DB: NewDB(), Prefix: blockchain.DBPrefixToBytes(blockchain.DBPrefixState), LongLived: longLived}
+	return &Node{Mod: NewModule(batchSize), DB: NewDB(), Prefix: StatePrefix(), LongLived: longLived}
+}
+
+// StatePrefix is the key prefix the engine uses for the state store.
+func StatePrefix() []byte { return blockchain.DBPrefixToBytes(blockchain.DBPrefixState) }
+
+// NewNodeOn creates a chain view on an existing DB under prefix (state prefix + suffix), so
+// that many views can share one pebble instance.
+func NewNodeOn(d *db.DB, suffix []byte, mod *liskbft.Module, longLived bool) *Node {
+	return &Node{Mod: mod, DB: d, Prefix: append(StatePrefix(), suffix...), LongLived: longLived}
+}
+
+// Fork copies the committed state of n to a new view under another prefix suffix.
+func (n *Node) Fork(suffix []byte) *Node {
+	c := &Node{Mod: n.Mod, DB: n.DB, Prefix: append(StatePrefix(), suffix...), LongLived: n.LongLived}
+	b := n.DB.NewBatch()
+	for _, kv := range n.DB.Iterate(n.Prefix, -1, false) {
+		b.Set(append(append([]byte{}, c.Prefix...), kv.Key()[len(n.Prefix):]...), kv.Value())
+	}
+	n.DB.Write(b)
+	return c
+}
+
+// Drop deletes the committed state of the view.
+func (n *Node) Drop() {
+	b := n.DB.NewBatch()
+	for _, kv := range n.DB.Iterate(n.Prefix, -1, false) {
+		b.Del(kv.Key())
+	}
+	n.DB.Write(b)
+}
+
+// RawDump returns the committed key/value pairs of the view (keys without the prefix).
+func (n *Node) RawDump() [][2]string {
+	var out [][2]string
+	for _, kv := range n.DB.Iterate(n.Prefix, -1, false) {
+		out = append(out, [2]string{hex.EncodeToString(kv.Key()[len(n.Prefix):]), hex.EncodeToString(kv.Value())})
+	}
+	return out
+}
+
+// FlushLongLived commits a long-lived view's diff into its DB (end of chain only).
+func (n *Node) FlushLongLived() {
+	if n.cur == nil {
+		return
+	}
+	b := n.DB.NewBatch()
+	n.cur.Commit(b)
+	n.DB.Write(b)
+	n.cur = nil
 }
 
 // Close releases the DB.
@@ -141,6 +190,13 @@ func (n *Node) Commit() {
 	n.cur.Commit(b)
 	n.DB.Write(b)
 	n.cur = nil
+}
+
+// Discard drops the working store of a per-block view without committing (after reads).
+func (n *Node) Discard() {
+	if !n.LongLived {
+		n.cur = nil
+	}
 }
 
 // Genesis runs InitGenesisState for a genesis block at the given height.
